@@ -41,4 +41,31 @@ NumLineages(ts, par, roots, t) ==
 LeavesBelow(par, u) == {v \in Desc(par, u) : ChildrenIn(par, v) = {}}
 
 MutsAtSites(ts, S) == {m \in 1..Len(ts.muts) : ts.muts[m].site + 1 \in S}
+
+\* ---- balance indices (derived views of one tree; nodes of the tree = nodes reachable from its roots) -------------
+TreeNodeSet(par, roots) == UNION {Desc(par, r) : r \in roots}
+LeafSet(par, roots) == {u \in TreeNodeSet(par, roots) : ChildrenIn(par, u) = {}}
+\* Sackin: sum of the depths of all leaves
+Sackin(par, roots) == SumOver(LeafSet(par, roots), LAMBDA u : DepthOf(par, u))
+\* Colless: defined for a single root and a strictly binary tree: sum over internal nodes of |leaves left - leaves right|
+CollessDefined(par, roots) == Cardinality(roots) = 1 /\ \A u \in TreeNodeSet(par, roots) : Cardinality(ChildrenIn(par, u)) \in {0, 2}
+NumLeavesBelow(par, u) == Cardinality({v \in Desc(par, u) : ChildrenIn(par, v) = {}})
+Colless(par, roots) ==
+  SumOver({u \in TreeNodeSet(par, roots) : ChildrenIn(par, u) # {}}, LAMBDA u :
+     LET cs == SetToSortSeq(ChildrenIn(par, u), <) d == NumLeavesBelow(par, cs[1]) - NumLeavesBelow(par, cs[2]) IN IF d < 0 THEN -d ELSE d)
+\* B1: sum over internal non-root nodes of 1 / (longest downward path to a leaf); as a fraction over a common denominator
+RECURSIVE HeightIn(_, _, _)
+HeightIn(par, u, fuel) == IF fuel = 0 \/ ChildrenIn(par, u) = {} THEN 0 ELSE 1 + Max({HeightIn(par, v, fuel - 1) : v \in ChildrenIn(par, u)})
+HeightOf(par, u) == HeightIn(par, u, Cardinality(DOMAIN par))
+B1Nodes(par, roots) == {u \in TreeNodeSet(par, roots) : par[u] # NULL /\ ChildrenIn(par, u) # {}}
+FactV(m) == FoldSet(LAMBDA i, acc : acc * i, 1, 1..m)
+RECURSIVE GcdV(_, _)
+GcdV(a, b) == IF b = 0 THEN a ELSE GcdV(b, a % b)
+B1OK(par, roots, obs) ==
+  LET cden == FactV(Cardinality(DOMAIN par))      \* every height divides it
+      cnum == SumOver(B1Nodes(par, roots), LAMBDA u : cden \div HeightOf(par, u))
+      gg == GcdV(cnum, cden)
+  IN obs[1] = cnum \div gg /\ obs[2] = cden \div gg
+\* number of edges / total branch length on the path between two nodes (through their MRCA)
+PathLen(par, u, v) == LET m == MRCAIn(par, u, v) IN DepthOf(par, u) + DepthOf(par, v) - 2 * DepthOf(par, m)
 =============================================================================
